@@ -180,6 +180,60 @@ def gen_triples(tier, mod):
            'env': {'results': results, 'want': want, 'BOT': BOT}, 'show': {'constraints': ts}}
 
 
+def gen_systems(tier, mod):
+  """Constraint systems over three variables: each starts as a term, constraints are equalities between two
+  variables or between a variable and a term; every order of the constraints (both argument orders)
+  must leave every variable denoting the meet of its connected component."""
+  rnd = random.Random(11)
+  t0 = terms(0)
+  t1 = terms(1)
+  n = 2500 if tier == 'quick' else 30000
+  small = ['Any', 'Singular', 'Sequential', 'Str', 'Num', ('list', 'Any'), ('list', 'Num'), ('list', 'Singular'),
+           ('open', ()), ('open', (('a', 'Any'),)), ('open', (('a', 'Num'),)), ('closed', (('a', 'Num'),))]
+  for i in range(n):
+    pool = [small, t0, t1][i % 3]
+    init = [rnd.choice(pool) if rnd.random() < 0.7 else 'Any' for _ in range(3)]
+    cons = []
+    for _ in range(rnd.choice([2, 3, 3, 4])):
+      if rnd.random() < 0.6:
+        a, b = rnd.sample(range(3), 2)
+        cons.append(('vv', a, b))
+      else:
+        cons.append(('vt', rnd.randrange(3), rnd.choice(pool)))
+    # spec: union-find over the variables, meet of everything in the component
+    comp = list(range(3))
+    def find(x):
+      while comp[x] != x:
+        x = comp[x]
+      return x
+    for c in cons:
+      if c[0] == 'vv':
+        comp[find(c[1])] = find(c[2])
+    want = {}
+    for v in range(3):
+      want.setdefault(find(v), 'Any')
+      want[find(v)] = meet(want[find(v)], init[v])
+    for c in cons:
+      if c[0] == 'vt':
+        want[find(c[1])] = meet(want[find(c[1])], c[2])
+    wants = [want[find(v)] for v in range(3)]
+    results = []
+    for perm in itertools.permutations(range(len(cons))):
+      for flip in (False, True):
+        vs = [build(mod, t, 'refs') for t in init]
+        for j in perm:
+          c = cons[j]
+          x = vs[c[1]]
+          y = vs[c[2]] if c[0] == 'vv' else build(mod, c[2], ['refs', 'direct'][j % 2])
+          if flip:
+            x, y = y, x
+          mod.Unify(x, y)
+        results.append([obs(mod, v) for v in vs])
+    yield {'args': [mod.TypeReference('Any'), mod.TypeReference('Any')],
+           'env': {'results': results, 'wants': wants, 'BOT': BOT},
+           'show': {'variables': init, 'constraints': cons}}
+
+
 def gen_close(tier, mod):
   """Close a record through an alias; every reference of the class must see the closed record."""
   for fields in ((('a', 'Num'),), (('a', 'Num'), (0, 'Str')), ()):
@@ -218,6 +272,11 @@ UNITS = [
        # for clash-free constraint sets the result does not depend on the order of unification
        ensures=["implies(want != BOT, all(r == want for r in results))"],
        native=gen_triples),
+  unit(F, 'Unify', name='Unify[constraint-systems]', props=['C16'], deductive=False, params=['a', 'b'],
+       # clash-free systems of equalities between variables and terms: every order of the constraints and
+       # both argument orders leave each variable denoting the meet of its connected component
+       ensures=["implies(all(w != BOT for w in wants), all(r == wants for r in results))"],
+       native=gen_systems),
   unit(F, 'TypeReference.CloseRecord', props=['C16'], deductive=False, params=[],
        ensures=["all(obs(r)[0] == 'closed' for r in others)",
                 # a closed record that lacks an addressed field is a clash, through every alias
